@@ -29,12 +29,13 @@ MAX_TIMEOUTS = {"quick": 2, "thorough": 40}
 REQUIRED = {"geometric_checks": 300, "direction_checks": 150, "direction_checks_wrapped": 15, "distance_checks": 60,
             "cycle_checks": 40, "persistence_checks": 20, "sampled_distances": 20, "multi_restraint_runs": 10,
             "regions_at_box_face": 15, "interleaved_molecule_names": 30, "several_restraints_of_one_kind": 30,
-            "rings_started_inside": 15, "ring_bonds_listed_in_any_order": 20, "blocks_with_two_direction_lines": 30}
+            "rings_started_inside": 15, "ring_bonds_listed_in_any_order": 20, "blocks_with_two_direction_lines": 30, "two_restrained_species": 30}
 TOP = """[ defaults ]
 1 2 no 1.0 1.0
 [ atomtypes ]
 A 36.0 0.0 A 0.47 3.5
 B 36.0 0.0 A 0.40 3.5
+C 36.0 0.0 A 0.62 3.5
 [ moleculetype ]
 M 1
 [ atoms ]
@@ -71,7 +72,7 @@ def setup():
 
 def plan(tier, seed):
     n = 780 if tier == "quick" else 6000
-    modes = ["geom", "geom", "geom_edge", "rw", "rw", "rw_small", "dist", "cycle", "cycle", "pers", "mix", "two_dist", "shell", "two_rw"]
+    modes = ["geom", "geom", "geom_edge", "rw", "rw", "rw_small", "dist", "cycle", "cycle", "pers", "mix", "two_dist", "shell", "two_rw", "dist2sp"]
     return [[modes[i % len(modes)], i] for i in range(n)]
 
 
@@ -128,6 +129,14 @@ def run_case(cid, rng, workdir):
         k = rng.randint(1, nm - 1)
         mols = (["W %d" % lead] if lead else []) + ["M %d" % k, "W %d" % inter_w, "M %d" % (nm - k)]
         bump(res, "interleaved_molecule_names")
+    n_big = 0
+    if mode == "dist2sp":
+        # a second restrained species with larger residues, named first in the build file: every species has its own
+        # average step in the window d - tol .. d + tol + step
+        n_big = rng.randint(5, 8)
+        extra += "[ moleculetype ]\nN 1\n[ atoms ]\n" + "\n".join("%d C %d RC Y %d 0.0" % (k + 1, k + 1, k + 1) for k in range(n_big)) + \
+            "\n[ bonds ]\n" + "\n".join("%d %d 1 0.5 1000" % (k, k + 1) for k in range(1, n_big)) + "\n"
+        mols = mols + ["N 1"]
     text = TOP.format(atoms="\n".join(atoms), bonds="\n".join(bonds), extra=extra, mols="\n".join(mols))
     with open(os.path.join(workdir, "c7.top"), "w") as fh:
         fh.write(text)
@@ -210,6 +219,13 @@ def run_case(cid, rng, workdir):
         bump(res, "blocks_with_two_direction_lines")
     elif mode == "dist":
         add_dist()
+    elif mode == "dist2sp":
+        # a short target for a long chain: the free end crowds the upper end of the window, where the step term matters
+        add_dist(lo=0.5, hi=0.8)
+        n_idx = lead + nm + inter_w
+        bl = ["[ molecule ]", "N %d %d" % (n_idx, n_idx + 1), "[ distance_restraints ]",
+              "0 %d %.3f 0.3" % (n_big - 1, round(rng.uniform(1.0, 0.4 * (n_big - 1)), 3))] + bl
+        bump(res, "two_restrained_species")
     elif mode == "two_dist":
         k = rng.randint(2, nres - 2)
         d1 = add_dist(0, k)
